@@ -56,6 +56,7 @@ def iso0():
 
         def rp():
             return {'kind': 'iso0', 'args': {'pin': concretize_str(pin, ev), 'pan': concretize_str(pan, ev)}}
+        core.set_fallback(rp, 'C13/concretised')
         with guard('Iso0PinBlock.to_bytes', 'C13/iso0-exception', rp):
             blk = pb.Iso0PinBlock(pin, card_number=pan).to_bytes()
         require(isinstance(blk, SymBytes) and len(blk) == 8, 'block is not 8 bytes', key='C13/iso0-layout', replay=rp)
@@ -83,6 +84,7 @@ def iso4(supplied):
 
         def rp():
             return {'kind': 'iso4', 'args': {'pin': concretize_str(pin, ev), 'random': ev(r) if supplied else None}}
+        core.set_fallback(rp, 'C13/concretised')
         with guard('Iso4PinBlock', 'C13/iso4-exception', rp):
             obj = pb.Iso4PinBlock(pin, random_value=rv)
             blk = obj.to_bytes()
@@ -116,6 +118,7 @@ def enc(clsname, keylens):
 
         def rp():
             return {'kind': 'enc', 'args': {'cls': clsname, 'pin': concretize_str(pin, ev), 'pan': concretize_str(pan, ev), 'key': concretize_str(key, ev)}}
+        core.set_fallback(rp, 'C13/concretised')
         is0 = clsname.startswith('Iso0')
         with guard(clsname, 'C13/enc-exception', rp):
             obj = cls(pin, card_number=pan) if is0 else cls(pin)
